@@ -569,13 +569,15 @@ def _robust_gp_fit_(
                 idx_drop_out = np.logical_or(
                     idx_drop_out, (Y > np.percentile(Y, 95)).flatten()
                 )
-                X = X[~idx_drop_out]
-                Y = Y[~idx_drop_out]
-                # Remove also user specified noise
-                if s2 is not None and not np.isscalar(s2):
-                    s2 = s2[~idx_drop_out]
-                if tmp_gp.s2 is not None and tmp_gp.s2.size > 0:
-                    tmp_gp.s2 = tmp_gp.s2[~idx_drop_out]
+                # Never shrink the training set below D + 1 points
+                if np.sum(~idx_drop_out) > X.shape[1]:
+                    X = X[~idx_drop_out]
+                    Y = Y[~idx_drop_out]
+                    # Remove also user specified noise
+                    if s2 is not None and not np.isscalar(s2):
+                        s2 = s2[~idx_drop_out]
+                    if tmp_gp.s2 is not None and tmp_gp.s2.size > 0:
+                        tmp_gp.s2 = tmp_gp.s2[~idx_drop_out]
 
             # Retry with random sample prior
             old_hyp_gp = (
